@@ -609,10 +609,91 @@ def always_exits(block) -> bool:
     return False
 
 
+_RV = [0]
+
+
+def _loop_with_returns(s):
+    """the loop (s itself, or the last statement of a `with` block s) whose body returns from depth 0, else None"""
+    loop = s
+    if isinstance(s, ast.With) and s.body and isinstance(s.body[-1], (ast.For, ast.While)) and not any(_has_own_return(x) for x in s.body[:-1]):
+        loop = s.body[-1]
+    if not isinstance(loop, (ast.For, ast.While)) or loop.orelse:
+        return None
+
+    def scan(stmts, found):
+        for x in stmts:
+            if isinstance(x, ast.Return):
+                found.append(x)
+            elif isinstance(x, ast.Break):
+                return False
+            elif isinstance(x, (ast.For, ast.While)):
+                if _has_own_return(x):
+                    return False
+            elif isinstance(x, (ast.FunctionDef, ast.AsyncFunctionDef, ast.ClassDef)):
+                continue
+            else:
+                for fld in ("body", "orelse", "finalbody"):
+                    if not scan(getattr(x, fld, []) or [], found):
+                        return False
+                for h in getattr(x, "handlers", []) or []:
+                    if not scan(h.body, found):
+                        return False
+        return True
+
+    found = []
+    if not scan(loop.body, found) or not found or any(r.value is None for r in found):
+        return None
+    return loop
+
+
+def _returns_to_break(stmts, rv, flag):
+    out = []
+    for x in stmts:
+        if isinstance(x, ast.Return):
+            out.append(ast.copy_location(ast.Assign(targets=[ast.Name(id=rv, ctx=ast.Store())], value=x.value, lineno=x.lineno), x))
+            out.append(ast.copy_location(ast.Assign(targets=[ast.Name(id=flag, ctx=ast.Store())], value=ast.Constant(value=True), lineno=x.lineno), x))
+            out.append(ast.copy_location(ast.Break(), x))
+            continue
+        if not isinstance(x, (ast.For, ast.While, ast.FunctionDef, ast.AsyncFunctionDef, ast.ClassDef)):
+            x = copy.copy(x)
+            for fld in ("body", "orelse", "finalbody"):
+                b = getattr(x, fld, None)
+                if isinstance(b, list) and b and isinstance(b[0], ast.stmt):
+                    setattr(x, fld, _returns_to_break(b, rv, flag))
+            if getattr(x, "handlers", None):
+                x.handlers = [copy.copy(h) for h in x.handlers]
+                for h in x.handlers:
+                    h.body = _returns_to_break(h.body, rv, flag)
+        out.append(x)
+    return out
+
+
 def structure_exits(stmts):
     """nest the statements following an always-exiting ``if`` into its other branch"""
     out = []
     for i, s in enumerate(stmts):
+        # a loop that returns from its body, followed by the fallback: `for …: … return v` + `…; return w`
+        #   →  found = False; for …: … rv = v; found = True; break;  if not found: …; rv = w;  return rv
+        rest_ = list(stmts[i + 1:])
+        lp_ = _loop_with_returns(s) if rest_ and isinstance(rest_[-1], ast.Return) and rest_[-1].value is not None and not any(_has_own_return(x) for x in rest_[:-1]) else None
+        if lp_ is not None:
+            _RV[0] += 1
+            rv, flag = f"_rv{_RV[0]}", f"_rv{_RV[0]}_set"
+            new_loop = copy.copy(lp_)
+            new_loop.body = _returns_to_break(lp_.body, rv, flag)
+            if lp_ is s:
+                head = [new_loop]
+            else:
+                w_ = copy.copy(s)
+                w_.body = list(s.body[:-1]) + [new_loop]
+                head = [w_]
+            init = ast.copy_location(ast.Assign(targets=[ast.Name(id=flag, ctx=ast.Store())], value=ast.Constant(value=False), lineno=s.lineno), s)
+            fb = rest_[:-1] + [ast.copy_location(ast.Assign(targets=[ast.Name(id=rv, ctx=ast.Store())], value=rest_[-1].value, lineno=rest_[-1].lineno), rest_[-1])]
+            tail_if = ast.copy_location(ast.If(test=ast.UnaryOp(op=ast.Not(), operand=ast.Name(id=flag, ctx=ast.Load())), body=fb, orelse=[]), rest_[0])
+            final = ast.copy_location(ast.Return(value=ast.Name(id=rv, ctx=ast.Load())), rest_[-1])
+            for x in [init, tail_if, final] + head:
+                ast.fix_missing_locations(x)
+            return out + [init] + head + [tail_if, final]
         if isinstance(s, ast.If):
             s = copy.copy(s)
             s.body = structure_exits(s.body)
